@@ -12,6 +12,8 @@ mod c10;
 mod c11;
 mod c16;
 mod c17;
+mod c18;
+mod c19;
 mod c20;
 mod content;
 mod driver;
@@ -74,6 +76,10 @@ macro_rules! with_engine {
             }
             "C16" => {
                 let $e = c16::C16;
+                $body
+            }
+            "C19" => {
+                let $e = c19::C19;
                 $body
             }
             "C20" => {
@@ -217,6 +223,11 @@ fn main() {
         i += 1;
     }
     let code = match args[0].as_str() {
+        "check" if pos.first().map(|s| s.as_str()) == Some("C18") => {
+            opts.runs = runs;
+            opts.write_evidence = evidence;
+            c18::check(tier, &opts)
+        }
         "check" => {
             let Some(id) = pos.first() else { usage() };
             opts.write_evidence = evidence;
@@ -271,6 +282,9 @@ fn main() {
             let b = std::fs::read(path).unwrap_or_default();
             let v: serde_json::Value = serde_json::from_slice(&b).unwrap_or(serde_json::Value::Null);
             let id = v["property"].as_str().unwrap_or("").to_string();
+            if id == "C18" {
+                std::process::exit(c18::replay(Path::new(path)));
+            }
             with_engine!(id.as_str(), e => do_replay(&e, Path::new(path)))
         }
         "selftest" => {
